@@ -348,3 +348,46 @@ Lemma ext_space s s' m i sp d : ext s s' m -> rd s i = Some (sp, d) -> exists d'
 Proof. intros (_ & _ & S). apply S. Qed.
 Global Opaque ext.
 Ltac splits := repeat match goal with |- _ /\ _ => split end.
+
+(* ---- element-wise ufuncs and division on clean operands ---- *)
+Lemma do_map_clean (f : VR -> VR) (f' : R -> R) i o (s : storeR) sp d dold :
+  (forall u, f (Some u) = Some (f' u)) ->
+  rd s i = Some (sp, cl d) -> rd s o = Some (sp, dold) ->
+  do_map f i o s = Ok tt (upd s o (sp, cl (map f' d))).
+Proof.
+  intros Hf E Eo. unfold do_map. rewrite E, Eo, sp_eqb_refl. rewrite (map_cl f f') by exact Hf. reflexivity.
+Qed.
+Definition rdiv (x y : list R) : list R := vmap2 Rdiv x y.
+Lemma vdiv_cl (d1 d2 : list R) : Forall (fun v => v <> 0) d2 ->
+  @vdiv VR _ (cl d1) (cl d2) = cl (rdiv d1 d2).
+Proof.
+  unfold vdiv, rdiv. revert d2. induction d1 as [|a d1 IH]; intros [|b d2] Hnz; cbn; try reflexivity.
+  inversion Hnz as [|? ? Hb Hr]; subst.
+  cbn [ndiv Num_opt odiv neqb nzero Num_R]. destruct (Reqb_spec b 0) as [E|_]; [contradiction|].
+  f_equal. apply IH. exact Hr.
+Qed.
+Lemma do_divide_clean i1 i2 o (s : storeR) sp d1 d2 dold :
+  Forall (fun v => v <> 0) d2 ->
+  rd s i1 = Some (sp, cl d1) -> rd s i2 = Some (sp, cl d2) -> rd s o = Some (sp, dold) ->
+  do_divide i1 i2 o s = Ok tt (upd s o (sp, cl (rdiv d1 d2))).
+Proof.
+  intros Hnz E1 E2 Eo. unfold do_divide. rewrite E1, E2, Eo, sp_eqb_refl. cbn [andb].
+  rewrite vdiv_cl by exact Hnz. reflexivity.
+Qed.
+Lemma rdiv_length x y : length x = length y -> length (rdiv x y) = length x.
+Proof. apply vmap2_length. Qed.
+
+(* literals of the source at both carriers *)
+Lemma IZR_pos_neq0 p : IZR (Z.pos p) <> 0.
+Proof. apply not_0_IZR. lia. Qed.
+Lemma of_Q_some (c : Q) : @of_Q VR _ c = Some (@of_Q R _ c).
+Proof.
+  unfold of_Q. cbn [of_Z ndiv Num_opt odiv neqb nzero Num_R].
+  destruct (Reqb_spec (IZR (Z.pos (Qden c))) 0) as [E|_]; [exfalso; exact (IZR_pos_neq0 _ E) | reflexivity].
+Qed.
+Lemma odiv_some (a b : R) : b <> 0 -> @ndiv VR _ (Some a) (Some b) = Some (a / b).
+Proof. intros Hb. cbn [ndiv Num_opt odiv neqb nzero Num_R]. destruct (Reqb_spec b 0); [contradiction | reflexivity]. Qed.
+Lemma nmax_some (a b : R) : @nmax VR _ (Some a) (Some b) = Some (Rmax a b).
+Proof. unfold nmax. cbn [nleb Num_opt ocmp Num_R]. rewrite <- nmax_R. unfold nmax. numR. destruct (Rleb a b); reflexivity. Qed.
+Lemma nmin_some (a b : R) : @nmin VR _ (Some a) (Some b) = Some (Rmin a b).
+Proof. unfold nmin. cbn [nleb Num_opt ocmp Num_R]. rewrite <- nmin_R. unfold nmin. numR. destruct (Rleb a b); reflexivity. Qed.
